@@ -1,3 +1,4 @@
+/* Native demonstration of the zone_malloc int-truncation defect (repaired in /repo by 6026e99: with the fix both calls return NULL). */
 #include "parsec/parsec_config.h"
 #include "parsec/utils/zone_malloc.h"
 #include <stdio.h>
